@@ -311,12 +311,25 @@ func c15PJCheck(ctx *vfCtx, c c15PJCase) {
 		}
 	}
 	faultless := c.Fault == "" && c.CreateWhere == "both" && c.CreateRoomVersion == "=" && !c.MakeErr && !c.SendErr && gVersion && c.JoinRule != "invite" && c.Echo != "other-bad-sender"
-	switch {
-	case faultless:
+	if faultless {
 		ctx.Class("all-guards-hold")
-	default:
-		ctx.Class(fmt.Sprintf("fault=%s/%s create=%s/%s rule=%s make-err=%v send-err=%v version-known=%v", c.Fault, c.FaultTarget, c.CreateWhere, c.CreateRoomVersion, c.JoinRule, c.MakeErr, c.SendErr, gVersion))
 	}
+	if c.Fault != "" {
+		ctx.Class("fault/" + c.Fault + "/" + c.FaultTarget)
+	}
+	if c.CreateWhere != "both" || c.CreateRoomVersion != "=" {
+		ctx.Class("create/" + c.CreateWhere + "/room_version" + c.CreateRoomVersion)
+	}
+	if c.MakeErr || c.SendErr {
+		ctx.Class("fault/request-failed")
+	}
+	if !gVersion {
+		ctx.Class("fault/unknown-version")
+	}
+	if c.RespVersion == "" {
+		ctx.Class("make-join-names-no-version")
+	}
+	ctx.Class("rule/" + c.JoinRule)
 	ctx.Class("echo/" + c.Echo)
 	ctx.Class("template/" + c.TemplateOdd)
 	nfaults := 0
@@ -372,6 +385,9 @@ func c15PJCheck(ctx *vfCtx, c c15PJCase) {
 	returned := ferr == nil && resp != nil && resp.JoinEvent != nil
 	if returned {
 		ctx.Class("outcome/join")
+		if !faultless {
+			ctx.Class("outcome/join-with-tolerated-fault/" + c.Fault + "/" + c.FaultTarget)
+		}
 	} else {
 		ctx.Class("outcome/error")
 	}
@@ -455,7 +471,7 @@ func c15PJGen(t *rapid.T) c15PJCase {
 	if (c.Version == "1" || c.Version == "4") && rapid.IntRange(0, 3).Draw(t, "noVersion") == 0 {
 		c.RespVersion = ""
 	}
-	nf := rapid.SampledFrom([]int{0, 1, 1, 1, 1, 2}).Draw(t, "nFaults")
+	nf := rapid.SampledFrom([]int{0, 0, 1, 1, 1, 2}).Draw(t, "nFaults")
 	for i := 0; i < nf; i++ {
 		switch rapid.SampledFrom([]string{"version", "make-err", "send-err", "create-where", "create-version", "badsig", "badsig", "disallowed", "no-state-key", "duplicate", "rule", "echo-bad"}).Draw(t, "fault") {
 		case "version":
